@@ -129,3 +129,61 @@ pub fn panic_site(msg: &str) -> String {
         msg.chars().take(40).collect()
     }
 }
+
+/// CPU time consumed so far by the calling thread, in seconds (user time, from
+/// /proc/thread-self/stat; 10 ms resolution).  The blow-up oracles of C03 and C06 compare the cost of
+/// consecutive family members: CPU time, unlike wall-clock time, does not grow when the machine is
+/// loaded by other work, so a slow host cannot fake super-polynomial growth.  `None` where /proc is
+/// not available (the callers fall back to wall-clock time).
+pub fn thread_cpu_seconds() -> Option<f64> {
+    let s = std::fs::read_to_string("/proc/thread-self/stat").ok()?;
+    // the command name (field 2) is parenthesised and may contain spaces: count fields after it
+    let rest = &s[s.rfind(')')? + 1..];
+    let f: Vec<&str> = rest.split_whitespace().collect();
+    // rest starts at field 3 (state): utime is field 14, stime field 15
+    let utime: f64 = f.get(11)?.parse().ok()?;
+    let stime: f64 = f.get(12)?.parse().ok()?;
+    // user time only: system time (page faults of a deep recursion's stack, allocator calls) grows with
+    // the contention in the kernel when the machine is loaded, user time is the computation itself
+    let _ = stime;
+    Some(utime / 100.0)
+}
+
+/// A member of a hostile family went over the soft cap and looks super-polynomial against its
+/// predecessor: measure both again (twice at most), keep the cheapest run of the large member and the
+/// dearest run of the small one, and report only if the verdict stands every time.  A genuine
+/// super-polynomial cost reproduces on every run; a stall of the host does not.
+pub fn confirm_blowup(dt: f64, pt: f64, cap: f64, is_blowup: impl Fn(f64, f64) -> bool, mut rerun_big: impl FnMut() -> f64, mut rerun_small: impl FnMut() -> f64) -> Option<(f64, f64)> {
+    let mut dt = dt;
+    let mut pt = pt;
+    for _ in 0..2 {
+        if !(dt > cap && is_blowup(dt, pt)) {
+            return None;
+        }
+        pt = pt.max(rerun_small());
+        dt = dt.min(rerun_big());
+    }
+    if dt > cap && is_blowup(dt, pt) {
+        Some((dt, pt))
+    } else {
+        None
+    }
+}
+
+/// a stopwatch on `thread_cpu_seconds`, wall-clock where that is unavailable
+pub struct CpuWatch {
+    cpu: Option<f64>,
+    wall: std::time::Instant,
+}
+
+impl CpuWatch {
+    pub fn start() -> CpuWatch {
+        CpuWatch { cpu: thread_cpu_seconds(), wall: std::time::Instant::now() }
+    }
+    pub fn seconds(&self) -> f64 {
+        match (self.cpu, thread_cpu_seconds()) {
+            (Some(a), Some(b)) => b - a,
+            _ => self.wall.elapsed().as_secs_f64(),
+        }
+    }
+}
